@@ -114,6 +114,13 @@ def correspondence(ctx):
         for f in forms:
             count(f)
     tot["operator_histogram"] = ops
+    tcs = impl_theory.theory_call_texts(cases, "del", ctx.seed * 227 + 1, 48 if ctx.tier == "quick" else 600)
+    tc = {}
+    for st, d in par.pmap(impl_theory.theory_calls_chunk, [(c, H) for c in par.chunks(tcs, ctx.jobs)], ctx.jobs):
+        for k, v in st.items():
+            tc[k] = tc.get(k, 0) + v
+        dis += d
+    tot["theory_translate_calls"] = tc
     tot["programs_outside_normal_form"] = len(nn)
     tot["excluded_point"] = excluded_point()
     tot["sample"] = {"program": oracles.witness_program(cases[-1][0], ATOMS, "del"), "horizon": H}
